@@ -65,7 +65,7 @@ def hooks(trace, wn, fault=None, deep=True):
             trace.solves.append({'k': k, 't': wn.sim_time, 'status': 0, 'injected': True})
             return SolverStatus.error, 'injected fault at solve %d' % k, 0
         r = o_solve(model, solver, solver_options)
-        trace.solves.append({'k': k, 't': wn.sim_time, 'status': int(r[0]), 'injected': False})
+        trace.solves.append({'k': k, 't': wn.sim_time, 'status': int(r[0]), 'injected': False, 'msg': str(r[1])[:80]})
         return r
 
     hyd.save_results = save_results
